@@ -33,6 +33,9 @@
 import SmoothProofs.C14Mean
 import SmoothProofs.C14Glue
 import SmoothProofs.C14Scan
+import SmoothProofs.C14Kkt
+import SmoothProofs.C14Dubins
+import SmoothProofs.C14Global
 import Mathlib.Tactic.NormNum
 
 open Polynomial Scalar Lin
@@ -154,18 +157,43 @@ theorem costFac_minDerivative (K : ℕ) (dt : ℝ) :
   rw [hD, Fit.ipow_real]
   simp
 
-/-- what is NOT proved about the optimising specifications: that the head of the solution of the
-    assembled KKT system `[Q Aᵀ; A 0] z = [0; b]` minimises `Σᵢ dtᵢ^{1−2D} xᵢᵀ P xᵢ + 1e-6‖x‖²`
-    subject to the rows (convexity + stationarity; `P = BᵀMB` is positive semidefinite).  The
-    constraint half of it is `rows_mean_constraints`; the check ties the assembled matrix to the
-    running code by solving the model's KKT system exactly. -/
-def kkt_minimiser_statement : Prop :=
-  ∀ (s : Fit.Spec) (O : ℕ) (dt dx lv rv : List ℝ) (z : ℕ → ℝ), s.optDeg = some O →
-    (∀ r < s.nCoef (Fit.nSeg dt dx) + s.nEq (Fit.nSeg dt dx),
-      (((Fit.kktEntries s O 0 dt dx lv rv).filter (fun e => e.1 = r)).map
-        (fun e => e.2.2 * z e.2.1)).sum
-        = (Fit.kktRhs s dt dx lv rv).getD r 0) →
-    Fit.RowsSat (Fit.rows s dt dx lv rv) z
+/-- **kkt_minimiser** — the optimising specifications.  For a symmetric cost matrix `Q` that is
+    positive semidefinite on `ker A`, the primal part `x` of ANY solution `(x, l)` of the KKT system
+    `[Q Aᵀ; A 0][x; l] = [0; b]` that `fit_spline_1d` assembles and hands to the sparse solver
+    minimises `½ xᵀQx` over `{y | A y = b}`. -/
+theorem kkt_minimiser {n m : Type} [Fintype n] [Fintype m] (Q : Matrix n n ℝ) (A : Matrix m n ℝ) (b : m → ℝ)
+    (hQ : Q.transpose = Q) (hpsd : ∀ d, A.mulVec d = 0 → 0 ≤ Fit.Kkt.quad Q d)
+    (x : n → ℝ) (l : m → ℝ) (h : Fit.Kkt.IsKKT Q A b x l) (y : n → ℝ) (hy : A.mulVec y = b) :
+    Fit.Kkt.quad Q x / 2 ≤ Fit.Kkt.quad Q y / 2 :=
+  Fit.Kkt.kkt_minimises Q A b hQ hpsd x l h y hy
+
+/-- … and if `Q` is positive definite on `ker A` the minimiser is strict and `x` is unique -/
+theorem kkt_minimiser_unique {n m : Type} [Fintype n] [Fintype m] (Q : Matrix n n ℝ) (A : Matrix m n ℝ) (b : m → ℝ)
+    (hQ : Q.transpose = Q) (hpd : ∀ d, A.mulVec d = 0 → d ≠ 0 → 0 < Fit.Kkt.quad Q d)
+    (x : n → ℝ) (l : m → ℝ) (h : Fit.Kkt.IsKKT Q A b x l) :
+    (∀ y, A.mulVec y = b → y ≠ x → Fit.Kkt.quad Q x < Fit.Kkt.quad Q y) ∧
+    (∀ x' l', Fit.Kkt.IsKKT Q A b x' l' → x' = x) :=
+  ⟨fun y hy hne => Fit.Kkt.kkt_strict Q A b hQ hpd x l h y hy hne,
+   fun x' l' h' => Fit.Kkt.kkt_unique Q A b hQ hpd x x' l l' h h'⟩
+
+/-- the code's cost blocks `dt^{1−2D}·P + 1e-6·I` are symmetric positive definite (everywhere, hence
+    on `ker A`) as soon as `P = BᵀMB` is positive semidefinite, which it inherits from the Gram
+    matrix `M = ∫₀¹ u^{(O)} u^{(O)ᵀ}du` of `monomial_integral` -/
+theorem cost_block_posdef {n : Type} [Fintype n] [DecidableEq n] (M B : Matrix n n ℝ)
+    (hM : ∀ d, 0 ≤ Fit.Kkt.quad M d) (hMs : M.transpose = M) (fac ε : ℝ) (hfac : 0 ≤ fac) (hε : 0 < ε) :
+    (fac • (B.transpose * M * B) + ε • (1 : Matrix n n ℝ)).transpose
+        = fac • (B.transpose * M * B) + ε • (1 : Matrix n n ℝ) ∧
+    ∀ d, d ≠ 0 → 0 < Fit.Kkt.quad (fac • (B.transpose * M * B) + ε • (1 : Matrix n n ℝ)) d := by
+  refine ⟨Fit.Kkt.reg_symm _ ?_ fac ε, fun d hd => Fit.Kkt.quad_reg_pos _ (Fit.Kkt.congr_psd M B hM) fac ε hfac hε d hd⟩
+  rw [Matrix.transpose_mul, Matrix.transpose_mul, Matrix.transpose_transpose, hMs, Matrix.mul_assoc]
+
+/-- what is still NOT proved here: that `monomial_integral<K,O>` is the Gram matrix of the `O`-th
+    derivatives of the monomials on `[0,1]` (hence positive semidefinite; C20's domain), and the
+    identification of the triplet list `kktEntries` with the block matrix `[Q Aᵀ; A 0]` of
+    `kkt_minimiser` (the check ties the assembled matrix to the running code by solving it exactly) -/
+def monomial_integral_psd_statement : Prop :=
+  ∀ (K O : ℕ) (d : Fin (K + 1) → ℝ),
+    0 ≤ Fit.Kkt.quad (Matrix.of (fun i j : Fin (K + 1) => (Fit.monoIntegral (α := ℝ) K O) i j)) d
 
 /-! ### first / last cumulative coefficient and rest at the ends -/
 
@@ -244,12 +272,25 @@ theorem dubins_unit_speed_curvature (R : ℝ) (hR : 0 < R) (c : Dubins.Cand ℝ)
   obtain ⟨h1, h2, h3⟩ := Dubins.emit_spec R c e he
   exact ⟨h1, h2, h3, Dubins.emit_curvature_bound R hR c e he⟩
 
-/-- NOT proved (planar trigonometry through `Complex.arg`; the check audits it instead by an
-    independent forward integration of the returned word and by the curve's own end pose):
-    the path emitted for the returned word ends at the target pose. -/
-def dubins_reaches_target_statement : Prop :=
-  ∀ (target : Vec ℝ 4) (R : ℝ), 0 < R → target 2 ^ 2 + target 3 ^ 2 = 1 →
-    ∀ c, Dubins.dubins target R = some c → SE2.matrix (Dubins.endPose (Dubins.emit R c)) = SE2.matrix target
+/-- **dubins_reaches_target, CSC words** (LSL, LSR, RSL, RSR).  Traversing the three emitted
+    segments as exact unit-speed arcs / straight lines (the flow of the constant body velocity
+    `(1, 0, κ)` — what `ConstantVelocity` segments are by C12 and C02) from the identity pose ends
+    exactly at the target pose (position and heading), whenever the word is feasible:
+    the circle centres are distinct, and at least `2R` apart for opposite turning directions. -/
+theorem dubins_csc_reaches_target (target : Vec ℝ 4) (R len : ℝ) (hR : 0 < R)
+    (hunit : target 2 ^ 2 + target 3 ^ 2 = 1) (c1 c3 : Dubins.Seg) (h1 : c1 ≠ .S) (h3 : c3 ≠ .S)
+    (hfeas : Dubins.CscFeasible target R c1 c3) :
+    Dubins.idealEnd (Dubins.emit R ⟨(c1, .S, c3), Dubins.csc target R c1 c3, len⟩) = Dubins.poseC target :=
+  Dubins.csc_reaches_target target R len hR hunit c1 c3 h1 h3 hfeas
+
+/-- NOT proved: the same for the CCC words (RLR, LRL; feasible for `0 < d13 ≤ 4R`); the check audits
+    it by independent forward integration of the returned word and by the curve's own end pose -/
+def dubins_ccc_reaches_target_statement : Prop :=
+  ∀ (target : Vec ℝ 4) (R len : ℝ), 0 < R → target 2 ^ 2 + target 3 ^ 2 = 1 →
+    ∀ (c13 c2 : Dubins.Seg), (c13 = .R ∧ c2 = .L) ∨ (c13 = .L ∧ c2 = .R) →
+      (let d13 := Dubins.norm2 (vsub (SE2.act target (mk2 0 (Dubins.sideR c13 R))) (mk2 0 (Dubins.sideR c13 R)))
+       0 < d13 ∧ d13 ≤ 4 * R) →
+      Dubins.idealEnd (Dubins.emit R ⟨(c13, c2, c13), Dubins.ccc target R c13 c2, len⟩) = Dubins.poseC target
 
 /-! ## 4. `fit_bspline` -/
 
@@ -345,14 +386,43 @@ theorem start_speed (s0 startVel v2max0 ai dt : ℝ) (hdt : dt ≠ 0) :
   obtain ⟨h1, h2⟩ := Reparam.mkSeg_start s0 vi ai dt hdt
   exact ⟨h1, h2, Reparam.start_speed_le startVel v2max0⟩
 
-/-- **onto** is by construction: the forward pass starts the first emitted segment at `s0 + ds·i`
-    for the first grid point `i` that is not skipped and the last call is
-    `concat_global(Spline<2,double>(spline.t_max()))`, which makes `t_max` the final value.  What
-    remains unproved is the assembled statement over the whole `forward` fold (every knot). -/
-def reparam_global_statement : Prop :=
-  ∀ (n : ℕ) (b : Reparam.Bounds ℝ n) (s0 ds sv : ℝ) (v2max : List ℝ) (samples : List (Reparam.Sample ℝ n)),
-    0 < ds → (∀ y ∈ v2max, 0 ≤ y) →
-    ∀ sg ∈ Reparam.forward b s0 ds sv v2max samples, 0 ≤ sg.c1 ∧ 0 ≤ sg.c2 ∧ s0 ≤ sg.s0
+/-- **reparam_global** — the whole forward pass, for ANY curve values and ANY results of the linear
+    programmes.  By construction (list induction over the fold, `Reparam.forward_grid`) the emitted
+    segments have positive durations and start at distinct grid points `s0 + ds·i`, `i < N`, in
+    increasing order.  If moreover every emitted segment has non-negative cumulative coefficients
+    and ends at or before the next grid point (what `reparam_monotone` / `reparam_monotone_small`
+    give per segment under their branch conditions), then the assembled map `s = evalMap` is
+    non-decreasing on `[0, ∞)`, takes values in `[s(0), t_max]`, starts at the first emitted
+    segment's grid point and equals `t_max = s0 + ds·N` from the total duration `T` on. -/
+theorem reparam_global {n : ℕ} (b : Reparam.Bounds ℝ n) (s0 ds sv : ℝ) (hds : 0 < ds) (v2max : List ℝ)
+    (samples : List (Reparam.Sample ℝ n))
+    (hok : ∀ sg ∈ Reparam.forward b s0 ds sv v2max samples,
+      0 ≤ sg.c1 ∧ 0 ≤ sg.c2 ∧ Reparam.segVal sg 1 ≤ sg.s0 + ds) :
+    let segs := Reparam.forward b s0 ds sv v2max samples
+    let tmax := s0 + ds * (samples.length : ℝ)
+    let s := Reparam.evalMap segs tmax
+    Reparam.Grid s0 ds samples.length segs ∧
+    (∀ t1 t2, 0 ≤ t1 → t1 ≤ t2 → s t1 ≤ s t2) ∧
+    (∀ t, 0 ≤ t → Reparam.headStart segs tmax ≤ s t ∧ s t ≤ tmax) ∧
+    s 0 = Reparam.headStart segs tmax ∧
+    (∀ t, Reparam.totalTime segs ≤ t → s t = tmax) := by
+  intro segs tmax s
+  have hg := Reparam.forward_grid b s0 ds sv hds v2max samples
+  have hc : Reparam.Chain segs tmax := Reparam.chain_of_grid hds segs hg hok
+  refine ⟨hg, fun t1 t2 h0 h12 => Reparam.evalMap_mono segs tmax hc t1 t2 h0 h12,
+    fun t ht => Reparam.evalMap_bounds segs tmax hc t ht, ?_, ?_⟩
+  · cases hsegs : segs with
+    | nil => simp [s, hsegs, Reparam.evalMap, Reparam.headStart]
+    | cons sg rest =>
+      have hmem : sg ∈ Reparam.forward b s0 ds sv v2max samples := by
+        show sg ∈ segs
+        rw [hsegs]; exact List.mem_cons_self ..
+      have hdt : 0 < sg.dt := (hg.1 sg hmem).1
+      simp only [s, hsegs, Reparam.headStart]
+      exact Reparam.evalMap_start sg rest tmax hdt
+  · intro t ht
+    rw [Reparam.totalTime_eq_total] at ht
+    exact Reparam.evalMap_end segs tmax hc t ht
 
 /-! ## Non-vacuity -/
 
@@ -443,5 +513,27 @@ example := reparam_monotone 0 (1 / 10) (Real.sqrt Reparam.eps) 1 (by norm_num) (
   (by rw [Real.sq_sqrt (le_of_lt Reparam.eps_pos)]) (Or.inl (by rw [Reparam.eps_real]; norm_num))
 
 example := start_speed 0 1 (1 / 2) 1 1 (by norm_num)
+
+/-- a KKT point of a 1×1 programme (`min ½x²` s.t. `x = 1`): `x = 1`, `l = −1` -/
+example : Fit.Kkt.IsKKT (1 : Matrix (Fin 1) (Fin 1) ℝ) (1 : Matrix (Fin 1) (Fin 1) ℝ) (fun _ => 1)
+    (fun _ => 1) (fun _ => -1) := by
+  constructor
+  · funext i; simp
+  · funext i; simp
+
+/-- LSL towards the pose 3 ahead with the same heading is feasible (`|C1C3| = 3 > 0`) -/
+example : Dubins.CscFeasible (mk4 3 0 0 1) 1 .L .L := by
+  constructor
+  · have h : Dubins.norm2 (vsub (SE2.act (mk4 (3 : ℝ) 0 0 1) (mk2 (nat 0) (Dubins.sideR .L 1)))
+        (mk2 (nat 0) (Dubins.sideR .L 1))) = 3 := by
+      simp [Dubins.norm2, Dubins.sideR, SE2.act, SE2.so2, SE2.r2, SO2.act, SO2.matrix, vsub, vadd, mulVec,
+        vsum, mk2, mk4, mat2, Vec.of, Mat.of, Scalar.sqrt]
+    rw [h]; norm_num
+  · intro h; exact absurd rfl h
+
+/-- a one-segment chain: from 0 to 0.1 in time 1 (coefficients 0.05, 0.05), `t_max = 0.1` -/
+example : Reparam.Chain [⟨1, 1 / 20, 1 / 20, 0⟩] (1 / 10) := by
+  refine ⟨by norm_num, by norm_num, by norm_num, ?_, trivial⟩
+  simp [Reparam.segVal, Reparam.headStart]; norm_num
 
 end C14
